@@ -208,8 +208,8 @@ def rand_history(rng):
 
 class HistoryRunner:
     """one SolverWrapper driven operation by operation (so that several of them can be interleaved)"""
-    def __init__(self):
-        self.s = new_solver(); self.cols = []; self.obs = []
+    def __init__(self, **kw):
+        self.s = new_solver(**kw); self.cols = []; self.obs = []
 
     def step(self, o):
         import highspy
@@ -238,8 +238,13 @@ class HistoryRunner:
                              (len(s._pending_fix_vars), len(s._pending_lb_vars))))
 
 
-def run_history_impl(ops):
-    r = HistoryRunner()
+# solver options under which the wrapper takes its OTHER optimize route (finite time limit + the extra signal-based timeout): the
+# bookkeeping of queued bounds and objectives must be the same on both routes
+TIMEOUT_KW = {"time_limit": 600, "use_also_custom_timeout": True}
+
+
+def run_history_impl(ops, kw=None):
+    r = HistoryRunner(**(kw or {}))
     for o in ops:
         r.step(o)
     return r.obs
@@ -247,7 +252,7 @@ def run_history_impl(ops):
 
 def run_interleaved(h1, h2, rng):
     """two wrappers alive at the same time, their operations interleaved: each must behave as if it were alone"""
-    r1, r2 = HistoryRunner(), HistoryRunner()
+    r1 = HistoryRunner(**(TIMEOUT_KW if rng.random() < 0.3 else {})); r2 = HistoryRunner(**(TIMEOUT_KW if rng.random() < 0.3 else {}))
     i = j = 0; order = []
     while i < len(h1) or j < len(h2):
         first = (j >= len(h2)) or (i < len(h1) and rng.random() < 0.5)
@@ -367,7 +372,7 @@ def run(ctx):
     outs = ctx.model.run([history_request(h) for h in hs], multiline=True)
     for h, out in zip(hs, outs):
         try:
-            impl = run_history_impl(h)
+            impl = run_history_impl(h, TIMEOUT_KW if rng.random() < 0.35 else None)
         except Exception as e:
             ctx.report("wrapper history raised " + repr(e), {"history": str(h)}, concrete=True); continue
         model = parse_obs(out)
